@@ -508,6 +508,18 @@ func argumentRolesAgree(r *Report, p *Program, rule string, files ...string) {
 		if strings.Contains(f, "zzmcvetcontrols") {
 			return true
 		}
+		// a file no property names (equality.go, finalizer.go …) concerns all of them
+		covered := false
+		for _, fl := range propertyFiles {
+			for _, x := range fl {
+				if x == f {
+					covered = true
+				}
+			}
+		}
+		if !covered {
+			return true
+		}
 		for _, x := range files {
 			if f == x {
 				return true
@@ -1104,5 +1116,50 @@ func patchHelpersTable(r *Report, p *Program, rule string) {
 			}
 		}
 		r.Check(rule, FK(f), p.Pos(f.Pos()), ok, c.from+" → "+c.to+" under one path", why)
+	}
+}
+
+// materialisedRevisionAppended (C07/C09): in syncRevisions the loop over the observed ControllerRevisions appends,
+// per revision that is not the latest, the parentRevision it has just built (a fresh allocation of that
+// iteration) — not `latest` again, not a value from outside the loop.
+func materialisedRevisionAppended(r *Report, p *Program, rule string) {
+	r.Rule(rule, "syncRevisions: what the materialisation loop appends to parentRevisions is the parentRevision allocated in that iteration")
+	r.Floor(rule, 1)
+	f := fn(r, p, rule, "controller/composite.parentController.syncRevisions")
+	if f == nil {
+		return
+	}
+	n := 0
+	for _, l := range engine.RangeLoops(f) {
+		for _, cs := range callsTo(f, false, "builtin.append") {
+			in := cs.Instr.(ssa.Instruction)
+			if !l.Contains(in) || len(cs.Common().Args) != 2 || !strings.Contains(cs.Common().Args[0].Type().String(), "parentRevision") {
+				continue
+			}
+			n++
+			ok, what := false, "?"
+			if sl, isSl := cs.Common().Args[1].(*ssa.Slice); isSl {
+				if arr, isA := sl.X.(*ssa.Alloc); isA && arr.Referrers() != nil {
+					for _, u := range *arr.Referrers() {
+						ia, isIA := u.(*ssa.IndexAddr)
+						if !isIA || ia.Referrers() == nil {
+							continue
+						}
+						for _, uu := range *ia.Referrers() {
+							if st, isS := uu.(*ssa.Store); isS {
+								what = E(st.Val)
+								if al, isAl := st.Val.(*ssa.Alloc); isAl && l.Contains(al) {
+									ok = true
+								}
+							}
+						}
+					}
+				}
+			}
+			r.Check(rule, sf("%s→append(parentRevisions)#%d", Short(FK(f)), n), p.InstrPos(in), ok, "the revision built in this iteration", "the loop appends "+what+", not the parentRevision it has just materialised: the old revisions' desired children are never asked for and never kept")
+		}
+	}
+	if n == 0 {
+		r.Check(rule, FK(f), p.Pos(f.Pos()), false, "", "no append to parentRevisions inside a loop")
 	}
 }
